@@ -9,16 +9,16 @@ ROOT = os.path.dirname(os.path.dirname(os.path.abspath(__file__)))
 
 CHECKS = {
     "C01": ("exploration", "runtime monitor: resp trace of compiled generated types vs CollectFields reference model",
-            "Held on every conforming payload generated for the clean document grammar: real generator -> real rustc -> generated serde code executed on payloads; shape-guided lossless round-trip oracle.",
+            "Held on every conforming payload generated for the clean document grammar and for the spec-valid borderline variants the generator happens to accept: real generator -> real rustc -> generated serde code executed on payloads (value, text and reader deserializers); shape-guided lossless round-trip oracle.",
             "Reference model of response shapes (vlib/shape.py), clean-grammar definition of 'supported', serde/rustc versions of /repo/Cargo.lock.", "5/C01", "B"),
     "C02": ("exploration", "runtime monitor: generator result + rustc diagnostics per case over option sets and delivery forms",
             "Every sampled (schema, document, options) is generated and type-checked by the real rustc in the library, CLI-file, derive and serde-less derive forms; diagnostics attributed per case.",
             "Clean grammar = supported subset; consumer supplies String scalars and hand-written extern enums; traits requested are implementable.", "5/C02", "B"),
     "C03": ("exploration", "runtime monitor: resp trace on single-point corruptions of conforming payloads",
-            "Every corruption of the catalogue at every position of sampled payloads must be rejected (or give Unknown with the other-variant option).",
+            "Every corruption of the catalogue at every position of sampled payloads must be rejected (or give Unknown with the other-variant option); a fifth of the cases is delivered through the derive macro.",
             "Corruption catalogue of vlib/shape.py; custom scalars excluded.", "5/C03", "B"),
     "C04": ("exploration", "runtime monitor: vars trace judged by an independent schema-driven input validator",
-            "Valid assignments are deserialised into Variables, serialised through build_query and judged against the schema (validator), the assignment and the exact skip-none rule.",
+            "Valid assignments are deserialised into Variables, serialised through build_query and judged against the schema (validator), the assignment and the exact skip-none rule; single-point invalid assignments probe the value space of the generated types (whatever is accepted must still serialise validly).",
             "Validator and value generator of vlib (GraphQL input coercion + @oneOf RFC).", "5/C04", "B"),
     "C05": ("exploration", "runtime monitor: QUERY / OPERATION_NAME / body members and selection outcomes vs the written document",
             "Byte equality of QUERY with the source text for hostile document texts, operation provenance vectors, derive / CLI selection matrix incl. no-fallback.",
@@ -30,7 +30,7 @@ CHECKS = {
             "Same (document, options) against SDL / JSON renderings: exact token equality when order is preserved, canonical item multiset otherwise.",
             "Renderers share one schema model.", "5/C07", "A"),
     "C08": ("exploration", "history monitor vs fresh-process reference + cache event log checker + Miri",
-            "Sequential histories, 2..16-thread stampedes and Miri-scheduled runs: each call equals the same call alone in a fresh process; cache log shows exactly-once fill, no hit after failed fill; no UB/data race reported.",
+            "Sequential histories, 2..16-thread stampedes and Miri-scheduled runs: each call equals the same call alone in a fresh process; cache log shows exactly-once fill, no hit after failed fill; no UB/data race reported; no driver process ends with every thread parked in an endless futex wait (deadlock monitor).",
             "OS / Miri schedules observed are recorded, not enumerated.", "5/C08", "A"),
     "C09": ("exploration", "metamorphic monitor: same vectors under several wire-neutral option sets",
             "Observations (accept/reject, re-serialised payloads, serialised variables) must be identical under every sampled combination of wire-neutral options.",
@@ -55,9 +55,9 @@ CHECKS = {
             "Response grammar of the GraphQL spec (June 2018, section 7).", "5/C15", "D"),
     "C16": ("exploration", "runtime monitor: ID helper calls along several serde routes + compiled ID positions",
             "Reference coercion table on boundary values through from_str / from_value / flatten / tagged; compiled ID positions incl. negative controls.",
-            "List-of-ID positions are a catalogued hazard (K3).", "5/C16", "D+B"),
+            "List-of-ID positions belong to the clean corpus since the K3 repair.", "5/C16", "D+B"),
     "C17": ("exploration", "process monitor: exit status / signal / CPU time of an isolated worker per adversarial input",
-            "Worker must end by return or panic-with-message; never by signal, never > 20 s CPU.",
+            "Worker must end by return or panic-with-message; never by signal, never > 20 s CPU, never deadlocked (all threads in a futex wait without timeout, none scheduled again) - also when a failing input is followed by further inputs in the same worker, as between the derives of one crate.",
             "8 MB main-thread stack; CPU time from wait4.", "5/C17", "A"),
     "C18": ("exploration", "differential monitor: attribute extraction vs reference parser; derive event log vs library route",
             "Attribute texts over key subsets / orders / literal styles; real derives compared with the library called with the written options.",
@@ -66,7 +66,7 @@ CHECKS = {
             "Flag combinations x pairs: file == header + library tokens (same rustfmt when formatting), placement, no file and non-zero exit on error.",
             "Same rustfmt binary as the CLI spawns.", "5/C19", "C"),
     "C20": ("fault_enumeration", "process + mock-server monitor: request log, exit status, output file hash over enumerated server behaviours",
-            "Flags x headers x output modes x server behaviours (200 JSON / garbage / empty, 4xx, 5xx, refused, closed early / mid-body): request as specified, output JSON-equal, untouched on failure.",
+            "Flags x headers x output modes x server behaviours (200 JSON / garbage / empty / JSON followed by trailing bytes, incomplete HTTP messages, 4xx, 5xx, refused, closed early / mid-body): request as specified, output JSON-equal, untouched on failure.",
             "--no-ssl not exercisable (no TLS peer); loopback networking.", "5/C20", "C+mock"),
 }
 
